@@ -10,10 +10,12 @@ import (
 	"fmt"
 	"math/rand"
 	"os"
+	"os/signal"
 	"path/filepath"
 	"sort"
 	"strconv"
 	"sync"
+	"syscall"
 	"time"
 
 	"github.com/c2h5oh/datasize"
@@ -33,6 +35,9 @@ type Op struct {
 	At   int64  `json:"at"`
 	Do   string `json:"do"`   // acceptor: accept ; consumer: take | confirm | confirmNew | handback | stall | finish
 	Size int    `json:"size"` // accept: chunk size in bytes
+	// accept: every file write of the process fails while this Accept runs (file-size limit 0: write(2) gives EFBIG), so a
+	// spill of this chunk - or a save by another goroutine at that moment - meets a write error
+	WFault bool `json:"wfault"`
 }
 
 // GenScript is one generation: a bufferer is created on the directory, used, and destroyed
@@ -249,7 +254,15 @@ func RunScript(sc Script, workRoot string) (*vtrace.Tracer, bool) {
 				id := fmt.Sprintf("%03d", nextID)
 				t0 := time.Now()
 				tr.Emit("AcceptBegin", "id", id, "size", op.Size)
+				var old syscall.Rlimit
+				if op.WFault {
+					_ = syscall.Getrlimit(syscall.RLIMIT_FSIZE, &old)
+					_ = syscall.Setrlimit(syscall.RLIMIT_FSIZE, &syscall.Rlimit{Cur: 0, Max: old.Max})
+				}
 				buf.Accept(base.LogChunk{ID: id, Data: chunkData(nextID, op.Size)})
+				if op.WFault {
+					_ = syscall.Setrlimit(syscall.RLIMIT_FSIZE, &old)
+				}
 				tr.Emit("AcceptEnd", "id", id, "ms", time.Since(t0).Milliseconds())
 			}
 		}
@@ -323,6 +336,7 @@ func Main(args []string) int {
 	_ = fs.Parse(args)
 
 	logger.SetLogLevel(logger.FatalLevel)
+	signal.Ignore(syscall.SIGXFSZ) // a write beyond the file-size limit returns EFBIG instead of killing the process
 	defs.IntermediateChannelTimeout = 2 * time.Second
 	defs.BufferShutDownTimeout = 40 * time.Millisecond
 
